@@ -134,7 +134,9 @@ def build_python(spec, root):
     for i in range(spec["_nrefs"]):
         cdir = os.path.join(root, f"child {i}é", "ascmhl")
         os.makedirs(cdir, exist_ok=True)
-        fp = os.path.join(cdir, f"000{i+1}_child_2026-01-01_000000Z.mhl")
+        # (child histories in folders of the same name, at the same generation, sealed in the same second, have manifests
+        # of the same file name: every second reference repeats the previous one's file name)
+        fp = os.path.join(cdir, f"000{(i - i % 2) + 1}_child_2026-01-01_000000Z.mhl")
         with open(fp, "wb") as f:
             f.write(os.urandom(40))
         ch = HL.MHLHashList()
@@ -301,9 +303,11 @@ def run(ctx):
             ad = os.path.join(d, "root", "ascmhl")
             os.makedirs(ad)
             ch = MHLChain(os.path.join(ad, "ascmhl_chain.xml"))
+            same_seq = rnd.random() < 0.3
             ents = []
             for k in range(rnd.randint(0, 4)):
-                e = {"seq": str(k + 1), "path": f"000{k+1}_{rnd.choice(STRINGS)}_2026-01-01_00000{k}Z.mhl", "fmt": "c4", "digest": rt.c4_of_bytes(rnd.randbytes(5))}
+                # (a collection file lists every packing list with sequence number 1)
+                e = {"seq": str(1 if same_seq else k + 1), "path": f"000{k+1}_{rnd.choice(STRINGS)}_2026-01-01_00000{k}Z.mhl", "fmt": "c4", "digest": rt.c4_of_bytes(rnd.randbytes(5))}
                 ents.append(e)
                 ch.append_generation(MHLChainGeneration(e["seq"], e["path"], "c4", e["digest"]))
             from ascmhl.hashlist import MHLHashList
@@ -313,11 +317,11 @@ def run(ctx):
             nh.file_path = os.path.join(ad, name)
             with open(nh.file_path, "wb") as f:
                 f.write(rnd.randbytes(30))
-            nh.generation_number = len(ents) + 1
+            nh.generation_number = 1 if same_seq else len(ents) + 1
             CP.write_chain(ch, nh)
             evals += 1
             dist["chains"] += 1
-            exp = ents + [{"seq": str(len(ents) + 1), "path": name, "fmt": "c4", "digest": rt.c4_of_bytes(open(nh.file_path, "rb").read())}]
+            exp = ents + [{"seq": str(1 if same_seq else len(ents) + 1), "path": name, "fmt": "c4", "digest": rt.c4_of_bytes(open(nh.file_path, "rb").read())}]
             try:
                 back = [{"seq": g.generation_number, "path": g.ascmhl_filename, "fmt": g.hash_format, "digest": g.hash_string} for g in CP.parse(ch.file_path).generations]
             except Exception as e:
